@@ -112,12 +112,32 @@ func c19checkSelect(s c19sel, vec []int) []ev.Finding {
 	if err != nil {
 		return []ev.Finding{{Sig: "generator:rejected", Witness: s.text, Detail: err.Error(), Case: cs}}
 	}
+	if out := c19privs(s, stmt, s.text, "", cs); out != nil {
+		return out
+	}
+	// the same statement as the second and third one read by a single parser: what the privileges are computed from
+	// must not depend on what the parser read before
+	qt := s.text + ";" + s.text + ";" + s.text
+	q, err := influxql.ParseQuery(qt)
+	if err != nil || len(q.Statements) != 3 {
+		return []ev.Finding{{Sig: "generator:rejected-in-sequence", Witness: qt, Detail: fmt.Sprint(err), Case: cs}}
+	}
+	for k, st := range q.Statements {
+		if out := c19privs(s, st, qt, fmt.Sprintf(":statement-%d-of-one-parser", k+1), cs); out != nil {
+			return out
+		}
+	}
+	return nil
+}
+
+func c19privs(s c19sel, stmt influxql.Statement, wit, suffix string, cs interface{}) []ev.Finding {
 	var eps influxql.ExecutionPrivileges
+	var err error
 	if p, st := try(func() { eps, err = stmt.RequiredPrivileges() }); p != nil {
-		return []ev.Finding{{Sig: "panic:RequiredPrivileges", Witness: s.text, Detail: fmt.Sprint(p) + st, Case: cs}}
+		return []ev.Finding{{Sig: "panic:RequiredPrivileges", Witness: wit, Detail: fmt.Sprint(p) + st, Case: cs}}
 	}
 	if err != nil {
-		return []ev.Finding{{Sig: "error:select", Witness: s.text, Detail: err.Error(), Case: cs}}
+		return []ev.Finding{{Sig: "error:select", Witness: wit, Detail: err.Error(), Case: cs}}
 	}
 	have := map[string]bool{}
 	for _, e := range eps {
@@ -126,12 +146,12 @@ func c19checkSelect(s c19sel, vec []int) []ev.Finding {
 	var out []ev.Finding
 	for _, d := range s.reads {
 		if !have[fmt.Sprintf("%v|%s", influxql.ReadPrivilege, d)] {
-			out = append(out, ev.Finding{Sig: "missing-read", Witness: s.text, Detail: fmt.Sprintf("no READ on %q in %v", d, eps), Case: cs, Rank: len(s.text)})
+			out = append(out, ev.Finding{Sig: "missing-read" + suffix, Witness: wit, Detail: fmt.Sprintf("no READ on %q in %v", d, eps), Case: cs, Rank: len(wit)})
 			break
 		}
 	}
 	if s.hasInto && !have[fmt.Sprintf("%v|%s", influxql.WritePrivilege, s.write)] {
-		out = append(out, ev.Finding{Sig: "missing-write", Witness: s.text, Detail: fmt.Sprintf("no WRITE on %q in %v", s.write, eps), Case: cs, Rank: len(s.text)})
+		out = append(out, ev.Finding{Sig: "missing-write" + suffix, Witness: wit, Detail: fmt.Sprintf("no WRITE on %q in %v", s.write, eps), Case: cs, Rank: len(wit)})
 	}
 	return out
 }
